@@ -156,6 +156,7 @@ class Ctx:
         self.pid, self.tier, self.seed, self.replay = pid, tier, seed, replay
         self.t0 = time.time()
         self.rng = SplitMix(seed * 1000003 + int(pid[1:]))
+        self._sweep_stale()
         self.tmp = Path(tempfile.mkdtemp(prefix=f"uvv-{pid}-", dir=str(self._tmproot())))
         atexit.register(lambda: shutil.rmtree(self.tmp, ignore_errors=True))
         self.obligations = []       # (name, ok, detail)
@@ -170,6 +171,16 @@ class Ctx:
         self.notes = {}
         self.known = load_known(pid)
         self.checker_cmds = []
+
+    @staticmethod
+    def _sweep_stale():
+        """scratch dirs of checks that were killed (older than 3 h) are removed"""
+        try:
+            for d in CACHE.glob("uvv-*"):
+                if time.time() - d.stat().st_mtime > 3 * 3600:
+                    shutil.rmtree(d, ignore_errors=True)
+        except OSError:
+            pass
 
     @staticmethod
     def _tmproot():
